@@ -63,7 +63,7 @@ func findCont(n uint32) (c, fc uint32, err error) {
 		x = ev.Mix64(x, uint64(i))
 		w := uint32(x >> 16)
 		res, consumed, ok := enum.Probe(n, w, 4*64)
-		if ok && consumed == 4 {
+		if ok && (consumed == 4 || (n == 1 && consumed == 0 && res == 0)) {
 			return w, res, nil
 		}
 	}
@@ -93,7 +93,8 @@ func sweepRange(n uint32, lo, hi uint64, hist []uint32, bitset []uint64, small8 
 		rd.w = uint32(v)
 		rd.k = 0
 		r := spg.VerifRandomUint32n(n)
-		if rd.k == 1 {
+		if rd.k == 1 || (n == 1 && rd.k == 0) { // a single alternative may be answered without reading
+
 			if r >= n {
 				res.Err = fmt.Sprintf("bound %d: word %#x gave %d, outside [0,%d)", n, uint32(v), r, n)
 				return
@@ -401,7 +402,13 @@ func c01SiteRun(c c01Site) error {
 	if probe.Pw == nil || len(probe.S.Draws) == 0 {
 		return &ev.Skip{Why: "no draw"}
 	}
+	if e := probe.S.IndexLevelOK(); e != nil {
+		return &ev.Inc{Why: e.Error()} // draws and reads are not interleaved one word per draw
+	}
 	n := probe.S.Draws[0].Bound
+	if n <= 1 {
+		return &ev.Skip{Why: "first draw has a single alternative"}
+	}
 	cont := make([]uint32, len(probe.S.Draws))
 	for i, d := range probe.S.Draws {
 		cont[i] = d.Choice
@@ -683,6 +690,10 @@ func c01Run(c c01Case) error {
 		return fmt.Errorf("bounded draw n=%d returned %d", c.N, res)
 	}
 	pos := s.Tape.Pos
+	if c.N == 1 && pos == 0 {
+		ev.Class("single_alternative_answered_without_reading")
+		return nil
+	}
 	if pos <= 0 || pos%4 != 0 {
 		return fmt.Errorf("bounded draw n=%d consumed %d bytes (want a positive multiple of 4)", c.N, pos)
 	}
